@@ -1560,9 +1560,9 @@ def result_fate(body, call):
                         if meth in ("unwrap", "expect", "unwrap_err", "expect_err"):
                             return "panics"
                         if meth in _DROPPING:
-                            # `.ok()` whose Option is then used is a conversion, not a drop
-                            if meth in ("ok", "err") and len(c.dest) == 1 and _is_read(body, c.dest[0], c):
-                                return "converted:%s" % meth
+                            # `.ok()` keeps the value but discards the error: still a dropped error
+                            if meth == "err" and len(c.dest) == 1 and _is_read(body, c.dest[0], c):
+                                return "converted:err"
                             if meth in ("is_ok", "is_err"):
                                 return "handled"
                             return "dropped:%s" % meth
